@@ -25,6 +25,7 @@ require (
 	github.com/multiformats/go-multihash v0.0.13 // indirect
 	github.com/multiformats/go-varint v0.0.5 // indirect
 	github.com/nanyan/golz4 v1.0.0 // indirect
+	github.com/pborman/uuid v0.0.0-20180827223501-4c1ecd6722e8 // indirect
 	github.com/rcrowley/go-metrics v0.0.0-20190826022208-cac0b30c2563 // indirect
 	github.com/rs/cors v0.0.0-20180826180256-dc7332ab32be // indirect
 	github.com/spaolacci/murmur3 v1.1.0 // indirect
